@@ -9,6 +9,8 @@ pub struct Report {
     pub violation_total: u64,
     pub samples: Vec<J>,
     pub extra: BTreeMap<String, J>,
+    /// how to re-run the case being processed: {"sub": subcommand, "args": [...], "row": TLC row payload}
+    pub ctx: Option<J>,
 }
 
 pub const MAX_KEPT: usize = 400;
@@ -27,9 +29,11 @@ impl Report {
         self.violation_total += 1;
         self.count(&format!("violations_{}", property));
         if self.violations.len() < MAX_KEPT {
-            self.violations.push(json!({
-                "property": property, "class": class, "features": features, "replay": replay
-            }));
+            let mut v = json!({"property": property, "class": class, "features": features, "replay": replay});
+            if let Some(c) = &self.ctx {
+                v["rerun"] = c.clone();
+            }
+            self.violations.push(v);
         }
     }
     /// Keep a thin, spread-out selection of the cases seen (every 997th, up to 12).
